@@ -208,8 +208,10 @@ def run(pid, spec, args, seed, t0, outdir, scratch):
         main = fls_sorted[0]
         rp = os.path.join(outdir, "replay_%s.txt" % re.sub(r"[^A-Za-z0-9_.-]", "_", cid))
         nrep += 1
-        if nrep <= 24:
+        if nrep <= 4:
             confirmed = R.replay_violation(pid, c, r, main, rp, scratch, all_failed=fls)
+        elif nrep <= 16:
+            confirmed = R.replay_violation(pid, c, r, main, rp, scratch, all_failed=fls, light=True)
         else:
             confirmed = R.replay_violation(pid, None, r, main, rp, scratch, all_failed=fls)
         vlines.append("FAILED-OBLIGATION: property=%s cell=%s obligation=%s (%d failed obligations in this cell; listed in the replay file)" % (pid, cid, main["property"], len(fls)))
